@@ -2,7 +2,7 @@
 //! drains and searches on an abstract integer line) on the real TieredEngine and record a trace for SearchTrace.tla.
 //!
 //! Abstract positions are mapped to concrete vectors that preserve the distance order with a wide margin:
-//!   Euclidean          origin + p * step * u          (u a unit direction; origin small or with components > 1)
+//!   Euclidean          origin + p * step * u          (u a unit direction; origin small or with components > 1; step 0.25, 1 or 3.5)
 //!   Cosine / InnerProd cos(p*delta) a + sin(p*delta) b (a, b orthonormal; optionally a common component in the first
 //!                      32 dimensions and the discriminating energy in the tail, beyond the prefix the cache's pruning
 //!                      bound looks at)
@@ -69,7 +69,10 @@ impl Geo {
                 for x in c.iter_mut().take(ohi) {
                     *x = if big { rng.gen_range(2.0..9.0) } else { rng.gen_range(-0.5..0.5) };
                 }
-                Geo { metric, dim, a, b, c, w: 0.0, step: 0.25 }
+                // spacing of the positions: distances below 1 (squared < plain), around 1, or well above 1 (squared > plain) -
+                // a bound compared in the wrong one of the two units errs in opposite directions on the two sides of 1
+                let step = [0.25, 0.25, 1.0, 3.5][rng.gen_range(0..4usize)];
+                Geo { metric, dim, a, b, c, w: 0.0, step }
             }
             _ => {
                 let c = if tail { unit(rng, dim, 0, 32) } else { vec![0.0; dim] };
